@@ -358,6 +358,15 @@ Definition k13_typed_result (st : store) (q : query) : bool :=
   | _ => false
   end.
 
+(** C08-K14: Gremlin's dedup() is planned as a Distinct over ALL columns of the traversal (the
+    whole path so far) below the final projection, so the same element reached along two paths is
+    returned twice *)
+Definition k14_gremlin_dedup (l : lang) (q : query) : bool :=
+  match l, q_ret q with
+  | LGremlin, RPlain _ true => negb (match hops q with [] => true | _ => false end)
+  | _, _ => false
+  end.
+
 (** the same question in several languages: the row multisets (sequences) must agree *)
 Definition xlang_same (m : cmode) (obs : list obs) : bool :=
   match obs with
